@@ -61,7 +61,12 @@ fn explore(api: &Api, setting_ix: usize, pi: usize, tier: Tier, seed: u64, cx: &
         cx.path();
         cx.edges += 3;
         let r = (|| -> Result<(), (String, String)> {
-            let (ke1, cl) = api.login_start(&mut t, pw2).map_err(|e| ("honest-step/login_start".to_string(), format!("{:?}", e)))?;
+            // every password of this alphabet is within bounds: an attempt that cannot even start does not end in the
+            // client's final step failing with InvalidLoginError, which is what the property states
+            let (ke1, cl) = api.login_start(&mut t, pw2).map_err(|e| match e {
+                E::RngFault => ("machinery/rng".to_string(), format!("{:?}", e)),
+                e => ("login_start/refuses-wrong-password".to_string(), format!("a login attempt with a wrong (valid-length) password is refused by the client's FIRST step with {:?}; the property demands InvalidLoginError from the final step", e)),
+            })?;
             let (ke2, sl) = api
                 .slogin_start(&mut t, &Blob::n(&setup), Some(&Blob::n(&reg.file)), &Blob::n(&ke1), &base.cid, o(&base.ctx), o(&base.idu), o(&base.ids))
                 .map_err(|e| ("honest-step/slogin_start".to_string(), format!("{:?}", e)))?;
@@ -90,6 +95,52 @@ fn explore(api: &Api, setting_ix: usize, pi: usize, tier: Tier, seed: u64, cx: &
     cx.sample(json!({"suite": api.name(), "registered_pw": desc(&base.pw), "login_pws": pws.iter().map(|p| desc(p)).collect::<Vec<_>>(), "setting": Params::describe(&base)}));
 }
 
+/// the same question under a maximally LOSSY key-stretching function (constant output): a wrong password must still
+/// fail, because the randomized password is Extract(oprf_output || Stretch(oprf_output)) and keeps the first half
+fn lossy_ksf(api: &Api, seed: u64, cx: &mut Cx) {
+    let pws: Vec<Vec<u8>> = vec![al::PW_DEFAULT.to_vec(), vec![], b"correct horsf".to_vec(), vec![b'x'; 256], vec![0u8]];
+    let mut t = Tape::seeded(seed, "c02/lossy");
+    let setup = match api.setup(&mut t) {
+        Ok(s) => s,
+        Err(e) => {
+            cx.violate_case("honest-step/setup", format!("{:?}", e), json!({}));
+            return;
+        }
+    };
+    cx.context_done();
+    for (pi, pw) in pws.iter().enumerate() {
+        let reg = match flow::register(api, &mut t, &setup, pw, b"alice", None, None, Some(99)) {
+            Ok(r) => r,
+            Err(e) => {
+                cx.violate_case(&format!("honest-step/{}", e.step), format!("registration under a constant KSF fails: {:?}", e.e), json!({}));
+                continue;
+            }
+        };
+        for (qi, pw2) in pws.iter().enumerate() {
+            cx.begin_case(json!({"ksf": "constant output", "registered_pw": desc(pw), "login_pw": desc(pw2)}));
+            cx.state(&("lossy", pi, qi));
+            cx.path();
+            cx.edges += 3;
+            let r = (|| -> Result<Result<(), E>, E> {
+                let (ke1, cl) = api.login_start(&mut t, pw2)?;
+                let (ke2, _) = api.slogin_start(&mut t, &Blob::n(&setup), Some(&Blob::n(&reg.file)), &Blob::n(&ke1), b"alice", None, None, None)?;
+                Ok(api.login_finish(&Blob::n(&cl), pw2, &Blob::n(&ke2), None, None, None, Some(99)).map(|_| ()))
+            })();
+            match (r, pi == qi) {
+                (Ok(Ok(())), true) => cx.outcome("lossy-ksf-correct-password-accepted"),
+                (Ok(Err(E::InvalidLogin)), false) => cx.outcome("lossy-ksf-wrong-password-rejected"),
+                (Ok(Ok(())), false) => {
+                    cx.outcome("VIOLATION");
+                    cx.violate("login_finish/ACCEPTED/lossy-ksf", "a wrong password logs in when the key-stretching function is lossy (constant): the secrets do not depend on the OPRF output itself".into());
+                }
+                (Ok(Err(e)), false) => cx.violate("login_finish/wrong-error/lossy-ksf", format!("wrong password rejected with {:?}, not InvalidLoginError", e)),
+                (Ok(Err(e)), true) => cx.violate("honest-step/login_finish", format!("correct password rejected under a constant KSF: {:?}", e)),
+                (Err(e), _) => cx.violate("honest-step/login", format!("{:?}", e)),
+            }
+        }
+    }
+}
+
 pub fn run(tier: Tier, seed: u64) -> i32 {
     let t0 = Instant::now();
     let n = al::passwords_valid().len();
@@ -101,7 +152,9 @@ pub fn run(tier: Tier, seed: u64) -> i32 {
             }
         }
     }
-    let tot = fw::run_items("C02", &items, |(a, _, _)| a.name().to_string(), |(api, s, pi), cx| explore(api, *s, *pi, tier, seed, cx));
+    let mut tot = fw::run_items("C02", &items, |(a, _, _)| a.name().to_string(), |(api, s, pi), cx| explore(api, *s, *pi, tier, seed, cx));
+    let papis = apis_of(crate::adapter::probe::suites());
+    tot.merge(fw::run_items("C02", &papis, |a| format!("probe:{}", a.name()), |api, cx| lossy_ksf(api, seed, cx)));
     let rep = Report {
         property: "C02",
         tier,
